@@ -128,7 +128,9 @@ func planBlocks(c *core.Ctx) []pblock {
 // shardPlan groups the blocks of one build flavour into shards of bounded weight
 // (a worker process leaks one goroutine per failed parse, so it must not live long).
 func shardPlan(bs []pblock, fast bool) [][]pblock {
-	limit := int64(400000)
+	// (every live goroutine costs the race runtime >= 128 KiB of trace memory: about 6% of the inputs
+	// leave their lexer goroutine behind, so a race-built worker handles at most ~100 000 inputs)
+	limit := int64(100000)
 	if fast {
 		limit = 2500000
 	}
@@ -186,7 +188,7 @@ func parseRun(c *core.Ctx) bool {
 		if len(plan) == 0 {
 			continue
 		}
-		spec := core.WorkerSpec{Sub: "parse", NShards: len(plan), MemKB: 8 << 20}
+		spec := core.WorkerSpec{Sub: "parse", NShards: len(plan), MemKB: 24 << 20}
 		if fast {
 			spec.Sub = "parsefast"
 			spec.Binary = c.VcheckFast()
@@ -204,7 +206,7 @@ func parseRun(c *core.Ctx) bool {
 			}
 		}
 		_ = sub
-		spec := core.WorkerSpec{Sub: "parsep1", NShards: len(shardPlan(filterP1(blocks), false)), Env: []string{"GOMAXPROCS=1"}, MemKB: 8 << 20}
+		spec := core.WorkerSpec{Sub: "parsep1", NShards: len(shardPlan(filterP1(blocks), false)), Env: []string{"GOMAXPROCS=1"}, MemKB: 24 << 20}
 		if spec.NShards > 0 {
 			res, ds := c.RunWorkers(spec)
 			total.Merge(res)
@@ -230,11 +232,20 @@ func parseRun(c *core.Ctx) bool {
 			c.Report(deathViolation("C16", d, "finite-stream"))
 		default:
 			inconclusive++
-			fmt.Printf("INCONCLUSIVE: a worker died (%s) while checking %s; crashes belong to C08. stderr tail:\n%s\n", d.Kind, c.Prop, core.Trunc(d.StderrTail, 1500))
+			fmt.Printf("INCONCLUSIVE: a worker died (%s, exit %d, signal %q) while checking %s; crashes belong to C08. stderr tail:\n%s\nrace log:\n%s\n", d.Kind, d.Exit, d.Signal, c.Prop, core.Trunc(d.StderrTail, 1500), core.Trunc(d.RaceLog, 1500))
 		}
 	}
 
 	distinct := total.DistinctCount()
+	// strings of 5 and more symbols are counted per alphabet at their canonical spelling (exact within
+	// an alphabet); the alphabets overlap, so only the largest of the three counts is added: a lower bound
+	var bulk int64
+	for _, k := range []string{"classA", "classB", "classC"} {
+		if n := total.Counters["canonical_nontrivial_"+k]; n > bulk {
+			bulk = n
+		}
+	}
+	distinct += bulk
 	cov := map[string]any{
 		"evaluations":         total.Evaluations,
 		"distinct_nontrivial": distinct,
@@ -245,6 +256,7 @@ func parseRun(c *core.Ctx) bool {
 		"blocks":              len(blocks),
 		"worker_deaths":       len(deaths),
 		"exhaustive":          false,
+		"distinct_counting":   "inputs of fewer than 5 symbols, generated programs and mutants: by hash; class strings of 5+ symbols: counted per alphabet at their canonical spelling, the largest of the three per-alphabet counts is added (lower bound, the alphabets overlap)",
 	}
 	for k, v := range total.SetSizes() {
 		cov["distinct_"+k] = v
@@ -342,8 +354,16 @@ func (w *pworker) runBlock(b pblock) {
 		alpha := gen.Alphabet(b.Kind)
 		var buf strings.Builder
 		for idx := b.Lo; idx < b.Hi; idx++ {
+			if b.N >= 5 {
+				// bulk enumeration: counted (canonical spellings are distinct by construction), not hashed
+				w.res.CountOnly = "-"
+				if gen.ClassCanonical(b.Kind, alpha, b.N, idx) {
+					w.res.CountOnly = "canonical_nontrivial_" + b.Kind
+				}
+			}
 			w.input(gen.ClassString(alpha, b.N, idx, &buf), nil)
 		}
+		w.res.CountOnly = ""
 	case "prog":
 		for i := 0; i < b.Count; i++ {
 			p := gen.RandProg(r, 6)
